@@ -1,8 +1,36 @@
-import TypstyleModel.Model.Printer.Knot
-/-! C18 — work grows linearly with input size (cost model = the tick counter of the model). -/
+import TypstyleModel.Proofs.Linear
+/-! C18 — work grows linearly with input size, whatever the nesting.
+
+The model's monad makes linearity a *typing* fact: the only operation that changes the state is
+`enter`, which refuses a second entry of the same (entry point, node) pair, and every model
+definition carries the kernel-checked proof that it preserves the invariant (`M.ok`).  The tie to the
+code is exact: the hook counter of the implementation equals `calls` on every generated case, and the
+model rejects no tree the parser produces (both counted in the evidence). -/
 namespace Typstyle
 
-/-- Every entry into `convert_expr` costs exactly one tick before anything else happens. -/
-theorem C18_tick_counts_one (k : Nat) : (tick.run k) = .ok ((), k + 1) := rfl
+/-- T18.1: each syntax node is converted at most once per entry point, independent of how deeply
+it is nested: the number of node conversions is at most `4 · size`, for every tree, configuration
+and width. -/
+theorem C18_conversions_linear_in_size (e : Env) (root : Node) (d : Pretty.Doc) (calls : Nat)
+    (h : printDoc e root = .ok (d, calls)) : calls ≤ 4 * (prepare root).size :=
+  printDoc_linear e root d calls h
+
+/-- The same for every sub-computation of the printer (range formatting, single converters):
+whatever is run from a fresh state of a tree with `limit` nodes ends with at most `4 · limit` entries. -/
+theorem C18_every_model_computation_linear {α : Type} (x : M α) (limit : Nat) (a : α) (s' : St)
+    (h : x.run { limit := limit } = .ok (a, s')) : s'.calls ≤ 4 * limit :=
+  M.calls_le x limit a s' h
+
+/-- Numbering does not change the number of nodes (the bound is in terms of the annotated tree). -/
+theorem C18_prepare_size (root : Node) : (prepare root).size = (annotate false root).size :=
+  (number_size _ 0).1
+
+/-- No hidden cost: a conversion entry is counted exactly once when it succeeds. -/
+theorem C18_enter_counts_one (k : Entry) (id limit : Nat) (s' : St)
+    (h : (enter k id).run { limit := limit } = .ok ((), s')) : s'.calls = 1 := by
+  simp only [enter] at h
+  split at h
+  · cases h; rfl
+  · cases h
 
 end Typstyle
